@@ -17,7 +17,7 @@ var ModelledCheckers = []string{"appendAssign", "appendCombine", "badRegexp", "d
 	"builtinShadowDecl", "defaultCaseOrder", "emptyFallthrough", "initClause", "singleCaseSwitch", "elseif", "elseif/skipBalanced=false",
 	"deferInLoop", "unnamedResult", "unnamedResult/checkExported=true", "paramTypeCombine", "ptrToRefParam", "sloppyTypeAssert",
 	"octalLiteral", "hexLiteral", "weakCond", "methodExprCall", "dupBranchBody", "underef", "underef/skipRecvDeref=false",
-	"captLocal", "captLocal/paramsOnly=false", "builtinShadow", "exitAfterDefer"}
+	"captLocal", "captLocal/paramsOnly=false", "builtinShadow", "exitAfterDefer", "unlambda"}
 
 // ModelledVariant maps a non-default parameter variant of a modelled checker to its model name ("" = not modelled).
 func ModelledVariant(name, tag string) string {
